@@ -1,13 +1,308 @@
-"""C45 -- Jelly enforces its security policy: bounded stand-in (contracts/parts/C45_bounded.py)."""
-from contracts._parts import bounded, EXPLORATION_NOTE
+"""C45 -- Jelly enforces its security policy.
 
-CONTRACTS = []
+Deductive (sink guards): _Unjellier._unjelly_module / _unjelly_class / _unjelly_function are executed symbolically for
+an arbitrary name, with the policy object (taster) as two uninterpreted predicates and with every resolver
+(reflect.namedObject, reflect.namedAny, __import__) as a call-out that records what it was asked for.  Proved: no
+resolver is ever called for a name whose module part the policy has not *already* accepted on that path (so nothing
+outside the policy is imported, not even when the call is refused afterwards), a class is returned only if the policy
+accepted that class, what `class` returns is a class and what `function` returns is a function.
+Bounded (contracts/parts/C45_bounded.py): the real resolvers, policies and whole s-expressions.
+"""
+import types
+
+import z3
+
+from pyvc.api import *
+from pyvc import core
+from contracts._parts import bounded
+from twisted.spread import jelly
+
+SEQ = core.IntSeq
+MODPART = z3.Function("c45_all_but_last_dotted_component", SEQ, SEQ)
+LAST = z3.Function("c45_last_dotted_component", SEQ, SEQ)
+MOD_OK = z3.Function("c45_policy_allows_module", SEQ, z3.BoolSort())
+CLS_OK = z3.Function("c45_policy_allows_class_named", SEQ, z3.BoolSort())
+TYPE_OK = z3.Function("c45_policy_allows_type", SEQ, z3.BoolSort())
+ATOMS = sorted(n[len("_unjelly_"):] for n in dir(jelly._Unjellier) if n.startswith("_unjelly_"))
+
+
+def _t(x):
+    return core.seq_term(x, "str")
+
+
+class DottedParts(list):
+    """name.split('.'): only the two views the code under proof may take are modelled -- everything but the last
+    component (as one piece) and the last component.  Any other access leaves the modelled fragment."""
+
+    def __init__(self, whole):
+        list.__init__(self)
+        self.whole = whole
+
+    def __getitem__(self, k):
+        if isinstance(k, slice) and (k.start, k.stop, k.step) == (None, -1, None):
+            return [core.SSeq(MODPART(_t(self.whole)), "str")]
+        if k == -1 and not isinstance(k, slice):
+            return core.SSeq(LAST(_t(self.whole)), "str")
+        raise Unsupported("access %r to the components of a dotted name" % (k,))
+
+    def __len__(self):
+        raise Unsupported("number of components of a dotted name")
+
+    def __iter__(self):
+        raise Unsupported("iteration over the components of a dotted name")
+
+
+def split_hook(I, recv, *args, **kw):
+    if len(args) == 1 and args[0] == "." and not kw:
+        return DottedParts(recv)
+    return NotImplemented
+
+
+class Taster:
+    """the policy: two arbitrary predicates (sidecar objects run natively inside the symbolic execution)"""
+
+    def isModuleAllowed(self, name):
+        return is_module_allowed(None, self, name)
+
+    def isClassAllowed(self, klass):
+        return is_class_allowed(None, self, klass)
+
+    def isTypeAllowed(self, name):
+        c = ctx()
+        ok = TYPE_OK(core.seq_term(name, "bytes"))
+        c.emit("isTypeAllowed", None, (core.seq_term(name, "bytes"), ok))
+        return core.mk_bool(ok)
+
+
+class ResolverFailed(AttributeError):
+    """reflect.namedObject's getattr found nothing (kept apart from an AttributeError of the code under proof)"""
+
+
+def _allowed_so_far(c, name_term):
+    """has the policy, earlier on this path, accepted exactly the module part of this name?"""
+    checks = [e for e in c.trace if e.name == "isModuleAllowed"]
+    return z3.Or([z3.And(e.args[0] == name_term, e.args[1]) for e in checks]) if checks else z3.BoolVal(False)
+
+
+def is_module_allowed(I, taster, name):
+    c = ctx()
+    ok = MOD_OK(_t(name))
+    c.emit("isModuleAllowed", None, (_t(name), ok))
+    return core.mk_bool(ok)
+
+
+def _name_of(c, obj):
+    """the name a resolver was asked for when it returned this object (ghost)"""
+    return c.ghost.get("c45_names", {}).get(id(obj))
+
+
+def is_class_allowed(I, taster, klass):
+    c = ctx()
+    name = _name_of(c, klass)
+    if name is None:
+        raise Unsupported("isClassAllowed on an object no resolver returned")
+    ok = CLS_OK(name)
+    c.emit("isClassAllowed", None, (name, ok))
+    return core.mk_bool(ok)
+
+
+class Other:
+    """something that is neither a class nor a function"""
+
+
+def _resolved(c, name, event, module_part):
+    """what a resolver may do: fail, or return a class, a function, a builtin or something else"""
+    guarded = _allowed_so_far(c, module_part)
+    c.emit(event, None, (_t(name), guarded))
+    k = c.decide(z3.Bool(c.fresh_name(event + "_fails")))
+    if k:
+        raise (ImportError if c.decide(z3.Bool(c.fresh_name(event + "_importerror"))) else ResolverFailed)("no such thing")
+    if c.decide(z3.Bool(c.fresh_name(event + "_is_class"))):
+        obj = type("Resolved", (), {})
+    elif c.decide(z3.Bool(c.fresh_name(event + "_is_function"))):
+        obj = (lambda: None) if c.decide(z3.Bool(c.fresh_name(event + "_python"))) else len  # len: some builtin function
+    else:
+        obj = Other()
+    c.ghost.setdefault("c45_names", {})[id(obj)] = _t(name)
+    c.ghost.setdefault("c45_keep", []).append(obj)  # keep it alive: ids must stay distinct on this path
+    return obj
+
+
+def named_object(I, name):
+    c = ctx()
+    return _resolved(c, name, "namedObject", MODPART(_t(name)))
+
+
+def named_any(I, name):
+    c = ctx()
+    return _resolved(c, name, "namedAny", MODPART(_t(name)))
+
+
+def builtin_import(I, name, *a, **kw):
+    c = ctx()
+    guarded = _allowed_so_far(c, _t(name))
+    c.emit("__import__", None, (_t(name), guarded))
+    if c.decide(z3.Bool(c.fresh_name("import_fails"))):
+        raise ImportError("no such module")
+    return types.ModuleType("resolved")
+
+
+class _Sink(Contract):
+    prop = "C45"
+    module = "twisted.spread.jelly"
+    differential = False
+    calls = {"str.split": split_hook, "Taster.isModuleAllowed": is_module_allowed,
+             "Taster.isClassAllowed": is_class_allowed, "namedObject": named_object, "namedAny": named_any,
+             "__import__": builtin_import, "qual": lambda I, o: "some.name"}
+    inputs = dict(name=Bytes(alphabet=b"a.\xff", small_len=3))
+    trusted = ["str.split('.') is used only through [:-1] (joined again) and [-1]: the module part of a dotted name is an "
+               "uninterpreted function of the name, the same one reflect.namedObject uses (its own source does the same split)",
+               "the policy object answers isModuleAllowed / isClassAllowed as functions of the name (it has no state that "
+               "changes during one unjelly call)",
+               "a resolver may fail with ImportError / AttributeError or return a class, a Python function, a builtin or "
+               "something else"]
+
+    def setup(self, i):
+        u = jelly._Unjellier(Taster(), None, None)
+        return dict(fn=getattr(jelly._Unjellier, self.function.split(".")[1]), args=[u, [i.name]])
+
+    def bounded_inputs(self, tier):
+        return iter(())
+
+    raises = (jelly.InsecureJelly, ImportError, ResolverFailed, UnicodeDecodeError)
+
+    def _guarded(S):
+        sinks = [e for e in S.trace if e.name in ("namedObject", "namedAny", "__import__")]
+        return core.mk_bool(z3.And([e.args[1] for e in sinks])) if sinks else True
+
+    def _consulted(S):
+        # non-vacuity: every path that gets past the ASCII decoding asks the policy
+        if isinstance(S.exc, UnicodeDecodeError):
+            return None
+        return any(e.name == "isModuleAllowed" for e in S.trace)
+
+    ensures = dict(nothing_resolved_before_the_policy_accepted_its_module=_guarded, policy_is_consulted=_consulted)
+
+
+class UnjellyModule(_Sink):
+    function = "_Unjellier._unjelly_module"
+    ensures = dict(_Sink.ensures,
+                   returns_a_module_only=lambda S: None if S.exc else isinstance(S.result, types.ModuleType))
+    canaries = [("if not self.taster.isModuleAllowed(moduleName):", "if False:", "nothing_resolved_before_the_policy_accepted_its_module")]
+
+
+class UnjellyClass(_Sink):
+    function = "_Unjellier._unjelly_class"
+
+    def _class_ok(S):
+        if S.exc is not None:
+            return None
+        name = S.ghost.get("c45_names", {}).get(id(S.result))
+        if type(S.result) is not type or name is None:
+            return False
+        return core.mk_bool(CLS_OK(name))
+
+    ensures = dict(_Sink.ensures, returns_only_a_class_the_policy_accepted=_class_ok)
+    canaries = [("if not self.taster.isModuleAllowed(modName):", "if False:", "nothing_resolved_before_the_policy_accepted_its_module"),
+                ("if not self.taster.isClassAllowed(klaus):", "if False:", "returns_only_a_class_the_policy_accepted"),
+                ("if objType is not type:", "if False:", "returns_only_a_class_the_policy_accepted"),
+                ("modName = nativeString(\".\").join(clist[:-1])", "modName = nativeString(\".\").join(clist[:-2])", "!verify")]
+
+
+class UnjellyFunction(_Sink):
+    function = "_Unjellier._unjelly_function"
+    ensures = dict(_Sink.ensures,
+                   returns_only_a_function=lambda S: None if S.exc else isinstance(S.result, (types.FunctionType, types.BuiltinFunctionType)))
+    canaries = [("if not self.taster.isModuleAllowed(modName):", "if False:", "nothing_resolved_before_the_policy_accepted_its_module"),
+                ("if not isinstance(function, (types.FunctionType, types.BuiltinFunctionType)):", "if False:", "returns_only_a_function")]
+
+
+def registry_get(I, key, *default):
+    """unjellyableRegistry.get / unjellyableFactoryRegistry.get for a type name that nobody registered"""
+    if not is_sym(key):
+        raise Unsupported("dict.get with a concrete key inside unjelly")
+    return default[0] if default else None
+
+
+def getattr_hook(I, obj, name, *default):
+    """getattr(self, '_unjelly_<type>', None) for a type name that is none of the built-in atoms"""
+    if not is_sym(name):
+        return I.getattr(obj, name) if not default else (I.getattr(obj, name) if hasattr(obj, name) else default[0])
+    for a in ATOMS:
+        if I.truth(veq(name, "_unjelly_" + a)):
+            raise Unsupported("dispatch to the atom %s" % a)
+    if not default:
+        raise AttributeError(name)
+    return default[0]
+
+
+def generic_unjelly(I, *args):
+    cls, state = args[-2:]  # (a bound method of a real object reaches a summary without its receiver)
+    c = ctx()
+    c.emit("instantiate", None, (cls, _name_of(c, cls)))
+    return Other()
+
+
+class UnjellyDottedType(_Sink):
+    """the generic branch of unjelly(): [b'some.module.Class', state] for a type name that is neither registered nor an atom"""
+    function = "_Unjellier.unjelly"
+    calls = dict(_Sink.calls, **{"dict.get": registry_get, "getattr": getattr_hook})
+    summaries = {"_Unjellier._genericUnjelly": generic_unjelly}
+    trusted = _Sink.trusted + ["the type name is not in unjellyableRegistry / unjellyableFactoryRegistry (registration is the "
+                               "application's own statement of trust) and is none of the built-in atoms (%s)" % ", ".join(ATOMS),
+                               "_genericUnjelly(cls, state) instantiates cls (summarised as an event; the state is unjellied "
+                               "recursively through the same function)"]
+
+    def requires(self, i):
+        r = True
+        for a in ATOMS:
+            r = band(r, bnot(veq(i.name, a.encode("ascii"))))
+        return r
+
+    def setup(self, i):
+        u = jelly._Unjellier(Taster(), None, None)
+        return dict(fn=jelly._Unjellier.unjelly, args=[u, [i.name, [b"dictionary"]]])
+
+    def _instances(S):
+        out = True
+        for e in S.trace:
+            if e.name == "instantiate":
+                if e.args[1] is None:
+                    return False
+                out = band(out, core.mk_bool(CLS_OK(e.args[1])))
+        return out
+
+    def _consulted(S):
+        if isinstance(S.exc, UnicodeDecodeError):
+            return None
+        names = [e.name for e in S.trace]
+        return "isTypeAllowed" in names and (isinstance(S.exc, jelly.InsecureJelly) or "isModuleAllowed" in names)
+
+    ensures = dict(nothing_resolved_before_the_policy_accepted_its_module=_Sink._guarded,
+                   instantiates_only_what_the_policy_accepted_as_a_class=_instances, policy_is_consulted=_consulted)
+    canaries = [("if not self.taster.isModuleAllowed(modName):", "if False:", "nothing_resolved_before_the_policy_accepted_its_module"),
+                ("if not self.taster.isClassAllowed(clz):", "if False:", "instantiates_only_what_the_policy_accepted_as_a_class")]
+
+
+CONTRACTS = [UnjellyModule, UnjellyClass, UnjellyFunction, UnjellyDottedType]
 BOUNDED = bounded("C45")
 _SCOPE = ('real jelly.unjelly under 8 SecurityOptions policies built through the public allow*() calls: a grammar of s-expressions over module / class / function / instance / method / reference / persistent tags and about 70 names (os.system, subprocess.Popen, builtins.eval, aliases of forbidden modules inside allowed ones, malformed dotted names) in 15 wrappers and 25 malformed shapes, 3000 random nested expressions; canary modules and classes, import spies and a walk of the returned object graph decide whether anything outside the policy was resolved, imported or instantiated; round trip of all 1-2 node (thorough 3) object graphs and 20000 random 3-5 node graphs with shared and cyclic references')
-NOTES = dict(explanation=_SCOPE, not_covered=["deductive contracts on the anchored functions (not built)"])
+NOTES = dict(explanation="the three name-resolving atoms proved to call no resolver before the policy accepted the module and to return "
+                         "only what the policy / the atom allows; everything else bounded: " + _SCOPE,
+             not_covered=["_Unjellier.unjelly's dispatch to the built-in atoms and to registered unjellyables (the generic dotted-type "
+                          "branch is under contract for names that are neither), instance / method atoms, _genericUnjelly / "
+                          "_newInstance, SecurityOptions itself, the round trip of object graphs: bounded tier only"])
 MANIFEST = dict(
-    category="exploration",
-    text="Bounded stand-in only, on the real code: " + _SCOPE + ".",
-    note=EXPLORATION_NOTE,
-    technique="bounded exhaustive evaluation of an executable contract on the real code (stand-in; not proved)",
+    category="proof",
+    text="_Unjellier._unjelly_module, _unjelly_class and _unjelly_function are proved, for every name, an arbitrary policy "
+         "(two uninterpreted predicates) and arbitrary resolver behaviour, never to call reflect.namedObject / namedAny / "
+         "__import__ unless the policy has already accepted the module part of exactly that name on the same path; "
+         "_unjelly_class returns only a class that the policy accepted, _unjelly_function only a function, _unjelly_module "
+         "only a module; anything else raises.  The generic branch of _Unjellier.unjelly ([b'mod.Class', state] for a type "
+         "name that is neither registered nor a built-in atom) is proved the same way: the type is refused unless "
+         "isTypeAllowed accepts it, nothing is resolved before the module was accepted, and _genericUnjelly is reached only "
+         "with what isClassAllowed accepted.  The dispatch to atoms and registered classes, instance / method atoms, the "
+         "real policies and resolvers and the round trip are exercised in the bounded tier only: " + _SCOPE + ".",
+    note="Trusted: pyvc, SMT solvers, the two-view model of str.split('.'), a stateless policy object.  Everything else: bounded, never counted as proved.",
+    technique="contract-based deductive verification (symbolic execution with uninterpreted policy predicates and recorded resolver call-outs, SMT) + bounded exhaustive s-expressions",
 )
